@@ -17,11 +17,37 @@ def AsIs (c : Cfg) : Prop :=
 /-- the route `addInitialSolution` leaves on the vehicle -/
 def finalRoute (c : Cfg) : List Nat := routeOf c (run c).att
 
-/-- C03 (units whole): two stops of the same root unit are both on the route or both off it. -/
+/-- C03 (units whole): two stops of the same root unit are both on the route or both off it — for a root that is NOT a
+one-of unit (`ho`; of a one-of root one alternative is on the route and the others are not:
+`c03_initial_units_whole_oneof_counterexample`; what holds of one-of roots is `c03_initial_oneof_at_most_one` and
+`c03_initial_oneof_whole_alternative` below). -/
 theorem c03_initial_units_whole (c : Cfg) (h : AsIs c) (hok : (run c).err = false)
-    (s s' : Nat) (hs : s ∈ c.stops) (hs' : s' ∈ c.stops) (hr : root c s = root c s') :
+    (s s' : Nat) (hs : s ∈ c.stops) (hs' : s' ∈ c.stops) (hr : root c s = root c s') (ho : root c s ∉ c.oneOf) :
     s ∈ finalRoute c ↔ s' ∈ finalRoute c :=
-  NR.Proofs.Init.units_whole c h.1 h.2.1 h.2.2.1 hok s s' hs hs' hr
+  NR.Proofs.Init.units_whole c h.1 h.2.1 h.2.2.1 hok s s' hs hs' hr ho
+
+/-- C03 (one-of): of a one-of root at most ONE alternative (member stops-unit) is attached when a solution is returned. -/
+theorem c03_initial_oneof_at_most_one (c : Cfg) (h : AsIs c) (hok : (run c).err = false) (r : Nat) (hr : r ∈ c.oneOf) :
+    ∀ u u', u ∈ (run c).att → u' ∈ (run c).att → c.rootOf u = r → c.rootOf u' = r → u = u' :=
+  NR.Proofs.Init.oneof_at_most_one c h.1 h.2.1 h.2.2.1 hok r hr
+
+/-- … in terms of the route: two stops of a one-of root that are both on the route are stops of the same alternative. -/
+theorem c03_initial_oneof_route_one_alternative (c : Cfg) (h : AsIs c) (hok : (run c).err = false)
+    (s s' : Nat) (hr : root c s ∈ c.oneOf) (hrr : root c s = root c s') (hs : s ∈ finalRoute c) (hs' : s' ∈ finalRoute c) :
+    c.unitOf s = c.unitOf s' :=
+  NR.Proofs.Init.oneof_route_one_unit c h.1 h.2.1 h.2.2.1 hok s s' hr hrr hs hs'
+
+/-- C03 (alternatives whole): two initial stops of the same stops-unit are both on the route or both off it, whatever
+the root (one-of or not). -/
+theorem c03_initial_oneof_whole_alternative (c : Cfg) (s s' : Nat) (hs : s ∈ c.L) (hs' : s' ∈ c.L)
+    (hu : c.unitOf s = c.unitOf s') : s ∈ finalRoute c ↔ s' ∈ finalRoute c :=
+  NR.Proofs.Init.unit_whole_L c (run c).att s s' hs hs' hu
+
+/-- … and for two stops of the MODEL when a solution is returned (`Model.Lock` lists a stops-unit whole or not at all). -/
+theorem c03_initial_oneof_whole_alternative_stops (c : Cfg) (hok : (run c).err = false)
+    (s s' : Nat) (hs : s ∈ c.stops) (hs' : s' ∈ c.stops) (hu : c.unitOf s = c.unitOf s') :
+    s ∈ finalRoute c ↔ s' ∈ finalRoute c :=
+  NR.Proofs.Init.unit_whole c hok s s' hs hs' hu
 
 /-- C08 (filing = routes): a root unit is filed as planned / fixed exactly when one of its stops (hence, by the theorem
 above, all of them) is on the route. -/
@@ -96,6 +122,37 @@ theorem c03_walk_counterexample :
     (run (exWalk false)).err = false ∧ 0 ∉ finalRoute (exWalk false) ∧ (run (exWalk true)).err = true := by
   decide
 
+/-- one-of root 10 with the alternatives 0 and 1 (one stop each), both listed; stop 2 alone. `rejectFirst`: the
+estimate rejects the first alternative. -/
+def exOneOf (rejectFirst : Bool) : Cfg :=
+  { L := [0, 1, 2], stops := [0, 1, 2], unitOf := id, rootOf := fun u => if u ≤ 1 then 10 else u, fixedStops := [],
+    oneOf := [10], sc := { est := if rejectFirst then [0] else [] } }
+
+/-- the first alternative is rejected: the root is marked, the second alternative is therefore skipped (E36), nothing
+of the root is on the route, and a solution is returned -/
+theorem exOneOf_first_rejected :
+    AsIs (exOneOf true) ∧ (run (exOneOf true)).err = false ∧ 10 ∈ (run (exOneOf true)).bad ∧
+      finalRoute (exOneOf true) = [2] ∧ filed (run (exOneOf true)) = [2] := by
+  refine ⟨by unfold AsIs; decide, by decide⟩
+
+/-- the first alternative is accepted and a second one is listed too: an error -/
+theorem exOneOf_second_alternative_err : AsIs (exOneOf false) ∧ (run (exOneOf false)).err = true := by
+  refine ⟨by unfold AsIs; decide, by decide⟩
+
+/-- one-of root 10 with the alternatives 0 and 1, only the first among the initial stops (the cover check lets a one-of
+root pass); stop 2 alone -/
+def exOneOfPartial : Cfg :=
+  { L := [0, 2], stops := [0, 1, 2], unitOf := id, rootOf := fun u => if u ≤ 1 then 10 else u, fixedStops := [],
+    oneOf := [10] }
+
+/-- `c03_initial_units_whole` needs `ho`: stops 0 and 1 have the same (one-of) root, 0 is on the route, 1 is not — and
+the hypotheses of `c03_initial_oneof_at_most_one` are met with an alternative attached (non-vacuity). -/
+theorem c03_initial_units_whole_oneof_counterexample :
+    AsIs exOneOfPartial ∧ (run exOneOfPartial).err = false ∧ 10 ∈ exOneOfPartial.oneOf ∧
+      root exOneOfPartial 0 = root exOneOfPartial 1 ∧ 0 ∈ finalRoute exOneOfPartial ∧ 1 ∉ finalRoute exOneOfPartial ∧
+      (run exOneOfPartial).att = [2, 0] ∧ 10 ∈ filed (run exOneOfPartial) := by
+  refine ⟨by unfold AsIs; decide, by decide⟩
+
 /-! ### the stored positions (an observation, not a property violation: C16 allows `NewSolution` to return an error) -/
 
 /-- `newMoveStops` never refuses the positions `addInitialSolution` computes while the stored stop positions are FRESH
@@ -121,6 +178,13 @@ theorem init_stale_positions_refuse : (run exStale).err = true ∧ validate exSt
 end NR.Props.C03I
 
 #print axioms NR.Props.C03I.c03_initial_units_whole
+#print axioms NR.Props.C03I.c03_initial_oneof_at_most_one
+#print axioms NR.Props.C03I.c03_initial_oneof_route_one_alternative
+#print axioms NR.Props.C03I.c03_initial_oneof_whole_alternative
+#print axioms NR.Props.C03I.c03_initial_oneof_whole_alternative_stops
+#print axioms NR.Props.C03I.exOneOf_first_rejected
+#print axioms NR.Props.C03I.exOneOf_second_alternative_err
+#print axioms NR.Props.C03I.c03_initial_units_whole_oneof_counterexample
 #print axioms NR.Props.C03I.c08_initial_filed_iff_on_route
 #print axioms NR.Props.C03I.c08_needs_initial_stops_in_model
 #print axioms NR.Props.C03I.c08_initial_filed_iff_on_route_L
